@@ -814,17 +814,18 @@ class SgzReader(object):
             if not 0 <= index < self.tracecount:
                 raise IndexError(self.range_error.format(index, 0, self.tracecount - 1))
             min_trace = self.blockshape[1] * (index // self.blockshape[1])
-
-            if self.blockshape[1] == 4:
-                chunk = self.loader.read_and_decompress_trace_range(min_trace, min_trace+self.blockshape[1])
-            else:
-                chunk = self.read_subplane(min_trace, min_trace+self.blockshape[1],
-                                           0, self.n_samples, access_padding=True)
-
             min_sample_id = 0 if min_sample_id is None else min_sample_id
             max_sample_id = self.n_samples if max_sample_id is None else max_sample_id
             if not 0 <= min_sample_id < max_sample_id <= self.n_samples:
                 raise IndexError(self.range_error.format((min_sample_id, max_sample_id), 0, self.n_samples))
+
+            if self.blockshape[1] == 4 and (min_sample_id, max_sample_id) == (0, self.n_samples):
+                chunk = self.loader.read_and_decompress_trace_range(min_trace, min_trace+self.blockshape[1])
+            else:
+                # A window of the trace: only the sample blocks it touches are read
+                chunk = self.read_subplane(min_trace, min_trace+self.blockshape[1],
+                                           min_sample_id, max_sample_id, access_padding=True)
+                min_sample_id, max_sample_id = 0, max_sample_id - min_sample_id
             trace = chunk[index % self.blockshape[1], min_sample_id:max_sample_id]
             return trace
 
